@@ -16,8 +16,8 @@ import (
 
 func init() {
 	eng.Register(&eng.Check{
-		ID: "C02",
-		Rule: "E1 bounded product for typed equality: literal alphabet L (every integer in [-130,260] and the 8/16/32/64-bit boundaries, each in 8 spellings: bare, quoted decimal, +signed, 0x, 0X, 0o, legacy octal, 0b, underscore; floats rendered FROM every float value of the data set in shortest/exact/hex/exponent forms; the ParseBool spellings; every string of length<=3 over {a / \" ` \\ space e-acute 0} in every legal quoting; ill-typed and out-of-range junk) x data D (ALL 256 int8 and uint8 values [thorough: all 65536 int16/uint16], boundary sets of the wider widths, float32/float64 specials (+-0, subnormals, min/max, 2^24+1, 2^53+1, 0.1, 1/3), bools, all strings<=3, non-scalars; each plain, named, behind a pointer, in a typed struct field, as json.Number); `a == lit` evaluated on the real code and on the reference (math/big arithmetic, own float-literal reader; strconv not used); plus the five exported Coerce* functions called directly on every literal. Distinct by construction; non-trivial = literal is valid for the value's kind (the comparison itself was decided, not a coercion error).",
+		ID:          "C02",
+		Rule:        "E1 bounded product for typed equality: literal alphabet L (every integer in [-130,260] and the 8/16/32/64-bit boundaries, each in 8 spellings: bare, quoted decimal, +signed, 0x, 0X, 0o, legacy octal, 0b, underscore; floats rendered FROM every float value of the data set in shortest/exact/hex/exponent forms; the ParseBool spellings; every string of length<=3 over {a / \" ` \\ space e-acute 0} in every legal quoting; ill-typed and out-of-range junk) x data D (ALL 256 int8 and uint8 values [thorough: all 65536 int16/uint16], boundary sets of the wider widths, float32/float64 specials (+-0, subnormals, min/max, 2^24+1, 2^53+1, 0.1, 1/3), bools, all strings<=3, non-scalars; each plain, named, behind a pointer, in a typed struct field, as json.Number); `a == lit` evaluated on the real code and on the reference (math/big arithmetic, own float-literal reader; strconv not used); plus the five exported Coerce* functions called directly on every literal. Distinct by construction; non-trivial = literal is valid for the value's kind (the comparison itself was decided, not a coercion error).",
 		Assumptions: []string{"reference reads literals with math/big (exact integers, correctly rounded floats of the field's width)", "exhaustive for 8-bit (thorough: 16-bit) integers, boundary alphabets for wider kinds and floats"},
 		Run:         runC02,
 	})
